@@ -3,7 +3,8 @@ CONSTANTS
   CharOrder <- AsciiOrder
   LowerSet <- AsciiLower
   MaxFuel = 64
-  MaxLayers = 2
+  MaxLayers = 4
+  FullDepth = 1
   Shard = 0
   NShards = 1
 INVARIANT Bounded
